@@ -321,7 +321,13 @@ FIXED = [
         {"op": "Burst", "l": [[0, 0, 2], [0, 1, 2], [0, 2, 2]]},
         {"op": "Recv", "sid": 0}, {"op": "Recv", "sid": 0}, {"op": "Recv", "sid": 1}, {"op": "Recv", "sid": 1},
         {"op": "Recv", "sid": 1}, {"op": "Leave", "sid": 0}, {"op": "Burst", "l": [[0, 3, 2]]},
-        {"op": "Recv", "sid": 1}, {"op": "Leave", "sid": 2}, {"op": "Drop", "i": 0}]},
+        {"op": "Recv", "sid": 1}, {"op": "Leave", "sid": 2}]},
+    # binding (and subscribing) never keeps the owner alive
+    {"classes": [1, 3, 2], "ops": [
+        {"op": "Access", "i": 0, "a": 2}, {"op": "Access", "i": 1, "a": 0}, {"op": "Access", "i": 2, "a": 1},
+        {"op": "Subscribe", "chans": [0, 1], "f": 0, "cap": 2}, {"op": "Wait", "chans": [1], "f": 0},
+        {"op": "Burst", "l": [[0, 0, 2]]}, {"op": "Drop", "i": 1}, {"op": "Drop", "i": 2},
+        {"op": "Recv", "sid": 0}, {"op": "Access", "i": 0, "a": 2}]},
 ]
 
 
